@@ -54,11 +54,47 @@ def h_fieldview(name, btype, N, S, M, T, variadic):
     return Harness("eff_" + name, args, body, out=(T, M), meta={"name": name, "B": btype})
 
 
+def h_mkview(name, btype, ptype):
+    """a thread takes its own view of a field shared (const) between threads"""
+    pre = ("  using P = %s;\n" % ptype) if ptype else ""
+    body = pre + """  using B = %s;
+  static_assert(sizeof(B::non_owning_data_t) <= 512);
+  const B::owning_data_t & o = *static_cast<const B::owning_data_t *>(a0);
+  new (out) B::non_owning_data_t(o);
+""" % btype
+    return Harness("eff_mkview_" + name, [("const void *", 'field')], body, out=("unsigned char", 512), meta={"name": "view-of " + name, "B": btype, "kind": "mkview"})
+
+
+def h_mkfieldview(name, btype):
+    body = """  using B = %s;
+  static_assert(sizeof(covfie::field_view<B>) <= 512);
+  const covfie::field<B> & f = *static_cast<const covfie::field<B> *>(a0);
+  new (out) covfie::field_view<B>(f);
+""" % btype
+    return Harness("eff_mkview_" + name, [("const void *", 'field')], body, out=("unsigned char", 512), meta={"name": "field_view-of " + name, "B": btype, "kind": "mkview"})
+
+
 def h_static(name, expr, args, ret="std::size_t"):
     return Harness("eff_" + name, args, "  return %s;" % expr, ret=ret, meta={"name": name, "B": expr})
 
 
 def universe(tier):
+    hs = universe_lookups(tier)
+    # every thread first takes a view of the shared field: constructing a view from a const field must not write to the field either
+    seen = set()
+    for h in list(hs):
+        m = re.search(r"using P = ([^;]+);", h.body)
+        B = h.meta["B"]
+        if h.name.startswith("eff_view_") or "calculate_index" in B or (B, m and m.group(1)) in seen:
+            continue
+        seen.add((B, m and m.group(1)))
+        hs.append(h_mkview(h.meta["name"], B, m.group(1) if m else None))
+    hs.append(h_mkfieldview("affine_linear_strided3", "affine<linear<strided<cv::size3, array<cv::float3>>>>"))
+    hs.append(h_mkfieldview("nn_morton2", "nearest_neighbour<morton<cv::size2, array<cv::double2>, false>>"))
+    return hs
+
+
+def universe_lookups(tier):
     hs = []
     A3 = "array<cv::float3>"
     A2d = "array<cv::double2>"
@@ -155,6 +191,7 @@ def scan(rep, h, fj, module, tag):
                     continue   # scanned separately (dumped with --callees)
                 bad.append((i, "call to %s, which is neither the backend query nor a known pure function" % (i.get("dcallee") or name)))
     if bad:
+        bad.sort(key=lambda x: 0 if x[1].startswith(("store", "llvm.mem")) else 1)      # the write itself first, its helpers after
         i, why = bad[0]
         rep.fail("C16.effects", inst_name, ir.where(i), "%s [%d finding(s) in this lookup]" % (why, len(bad)))
     else:
@@ -196,7 +233,10 @@ def token_scan(rep):
                         hit = (ln, "static non-const variable")
                         break
                 if hit:
-                    rep.fail("C16.state", rel, "%s:%d" % (rel, hit[0]), "library source uses `%s`: shared mutable state / const-bypassing construct" % hit[1])
+                    # a keyword is not a race: the effect analysis decides lookups and view construction; a construct it has no
+                    # harness for may still be reached some other way, so this asks for re-confirmation (exit 2), it does not accuse
+                    rep.undecided("C16 %s:%d uses `%s` (shared mutable state / const-bypassing construct) and the effect analysis of lookups and view construction found no write through it: "
+                                  "re-confirm by reading that no operation the property lets threads perform concurrently reaches it" % (rel, hit[0], hit[1]))
                 else:
                     rep.ok("C16.state", rel)
     return nfiles
@@ -215,7 +255,7 @@ def selfcheck():
 def declare(rep):
     rep.rule("C16.compile", "lookup-through-shared-view harness compiles", floor=20)
     rep.rule("C16.effects", "lookup writes only lookup-local memory, uses no atomics/volatile/mutable globals, calls only the backend query or pure functions", floor=40)
-    rep.rule("C16.state", "library header uses no mutable/const_cast/volatile/thread_local/atomic and declares no non-const static variable", floor=25)
+    rep.rule("C16.state", "library header uses no mutable/const_cast/volatile/thread_local/atomic and declares no non-const static variable (a hit is exit 2 unless the effect analysis found the write)", floor=25)
 
 
 def run(rep, tier):
@@ -265,6 +305,7 @@ def check(tier):
     return rep.finish(
         "Sound effect analysis of the optimised IR of every layer's lookup taken through a view passed by pointer (as when threads share a view), in the NDEBUG and the assertion-enabled build: "
         "all stores/memcpys target lookup-local memory, no atomics/volatile, only constant globals are read, and the only calls are the backend query, pure intrinsics/libm and __assert_fail. "
-        "Plus a token-level scan of the headers for constructs that could introduce shared mutable state. The verdict is schedule-independent: it constrains every access a lookup can perform.",
+        "The same scan covers constructing a view from a const field (what each thread does first). A token-level scan of the headers for constructs that could introduce shared mutable state "
+        "backs this up: a hit the effect analysis cannot attribute to a write is answered exit 2, not with a violation. The verdict is schedule-independent: it constrains every access a lookup can perform.",
         "bin/vcheck C16 (clang++ -O2 -emit-llvm | build/irdump --callees | effect scan in engine/rules/c16.py)",
         ["clang 14 -O2 IR faithful to source", "engine/ir.py points-to (Taint.pts) for store destinations", "C++ memory model"], exhaustive=True)
